@@ -2,7 +2,7 @@
 From Coq Require Import ZArith NArith List Bool.
 Import ListNotations.
 From VM Require Import Model.
-From Diag Require Import Model Proofs.
+From Diag Require Import Model Proofs Simulation.
 Open Scope nat_scope.
 
 (* Tracing and profiling: ANY observer hooked into the dispatch loop that only reads the context and appends
@@ -59,4 +59,28 @@ Example C12_nonvacuous :
   length (snd (run_with dev trace_obs 100 ex_prog init_glob (init_ctx false) [])) = 19 /\
   snd (run_with dev profile_obs 100 ex_prog init_glob (init_ctx false) []) =
     [ProfileLine 1; ProfileLine 2; ProfileLine 3; ProfileLine 4; ProfileLine 5]%Z.
+Proof. vm_compute. repeat split; reflexivity. Qed.
+
+(* ------------------------------------------------------------------ whole-run equality for the debug mode *)
+(* The debugger driven with `continue` only (debugger.go runFrom fused with RunFromAddress: every stop at a line
+   is answered by Resume()) ends EVERY run -- every program, shared state, context and fuel -- with the shared
+   state (symbol tables, printed output, panic chain), the context (up to the debugging flag itself) and the
+   outcome of the plain run of the same context.  Proved by induction on the dispatched instructions: the line
+   marker is a stuttering step (C12_debug_signal_not_caught, C12_debug_continue_partial), every other instruction
+   commutes with the flag (exec_sd / step_sd over all instructions of the model, including the nested runs of
+   deferred calls, catch unwinding and panic unwinding). *)
+Theorem C12_debug_continue_whole_run : forall fuel p g c,
+  run_debug_continue fuel p g (set_debug c true) =
+  (let '(g', c', o) := run fuel p g (set_debug c false) in (g', set_debug c' true, o)).
+Proof. exact debug_continue_whole_run. Qed.
+
+(* projected observables (printed markers + outcome class) of whole programs *)
+Theorem C12_debug_continue_observables : forall fuel p,
+  run_program_debug_continue fuel p = run_program fuel p.
+Proof. exact debug_continue_observables. Qed.
+
+Example C12_debug_continue_whole_run_nonvacuous :
+  run_program_debug_continue 100 ex_prog = [0; 1; 2; 4; 5]%Z /\
+  c_debug (snd (fst (run_debug_continue 100 ex_prog init_glob (init_ctx true)))) = true /\
+  c_pc (snd (fst (run_debug_continue 100 ex_prog init_glob (init_ctx true)))) = 21.
 Proof. vm_compute. repeat split; reflexivity. Qed.
